@@ -36,3 +36,22 @@ impl TypeIdSet {
     #[verifier::external_body]
     pub fn contains(&self, x: &TypeId) -> (r: bool) ensures r == self@.contains(*x) { unimplemented!() }
 }
+
+// BTreeSet<TypeId>::iter(): the elements in the set's (total, derive(Ord)) order, each once (method_rename iter -> vx_iter_vec)
+pub uninterp spec fn type_id_lt(a: TypeId, b: TypeId) -> bool;
+impl TypeIdSet {
+    pub uninterp spec fn sp_vec(&self) -> Seq<TypeId>;     // the iteration order: a function of the set
+    #[verifier::external_body]
+    pub fn vx_iter_vec(&self) -> (r: Vec<TypeId>)
+        ensures r@ == self.sp_vec(), forall|t: TypeId| self@.contains(t) <==> r@.contains(t), r@.no_duplicates(),
+            forall|i: int, j: int| 0 <= i < j < r@.len() ==> type_id_lt(r@[i], r@[j]),
+    { unimplemented!() }
+}
+impl FragSet {
+    pub uninterp spec fn sp_vec(&self) -> Seq<ResolvedFragmentId>;
+    #[verifier::external_body]
+    pub fn vx_iter_vec(&self) -> (r: Vec<ResolvedFragmentId>)
+        ensures r@ == self.sp_vec(), forall|t: ResolvedFragmentId| self@.contains(t) <==> r@.contains(t), r@.no_duplicates(),
+            forall|i: int, j: int| 0 <= i < j < r@.len() ==> r@[i].0 < r@[j].0,
+    { unimplemented!() }
+}
